@@ -40,3 +40,8 @@ Definition top_len (r : option val) : string :=
   end.
 Definition expect_len (t : ty) (sel base : list Z) (cs : list corr) : list string :=
   map (fun c => top_len (accept_call t (sel ++ apply_c c base))) cs.
+
+Definition expect_mem (t : ty) (base : list Z) (cs : list corr) : list string :=
+  map (fun c => outcome t base (accept_mem t (apply_c c base))) cs.
+Definition expect_ret (t : ty) (base : list Z) (cs : list corr) : list string :=
+  map (fun c => outcome t base (accept_ret t (apply_c c base))) cs.
